@@ -36,24 +36,43 @@ Rec(i) == All[i + 1]
 
 Marker == <<113, 122, 113>>       \* the plain string "qzq"
 
-Positions == {"fact", "list", "record", "concat", "default", "user"}
+(* Positions of the literal.  The second group makes it an argument of a   *)
+(* built-in call whose SQL text is produced from a template ({0}-style:    *)
+(* Element, Join, Size, Like; %s-style: Greatest, ToString, Format; Upper   *)
+(* has no template and is passed through):                                 *)
+(*   element  Element([lit, "a"], 0)        joinsep  Join(["a", "a"], lit) *)
+(*   greatest Greatest(lit, "")             tostring ToString(lit)         *)
+(*   format   Format("%s", lit)             upper    Upper(lit)            *)
+(*   size     ToString(Size([lit]))         like     ToString(Like(lit, "%")) *)
+Positions == {"fact", "list", "record", "concat", "default", "user",
+              "element", "joinsep", "greatest", "tostring", "format",
+              "upper", "size", "like"}
 
-(* What the query must return when string s is placed in position pos.     *)
-Ctx(pos, s) == IF pos = "concat" THEN <<97>> \o s \o <<97>> ELSE s
+UpperAscii(s) == [i \in 1..Len(s) |-> IF s[i] >= 97 /\ s[i] <= 122
+                                       THEN s[i] - 32 ELSE s[i]]
+
+(* What the query must return when string s is placed in position pos      *)
+(* (SQLite: "" is the least string; UPPER changes ASCII letters only; a     *)
+(* one-element list has size 1; every string is LIKE "%").                 *)
+Ctx(pos, s) ==
+  CASE pos \in {"concat", "joinsep"} -> <<97>> \o s \o <<97>>
+    [] pos = "upper" -> UpperAscii(s)
+    [] pos \in {"size", "like"} -> <<49>>
+    [] OTHER -> s
 
 (* The string a record is about: given directly (unit, user flag) or       *)
 (* denoted by the Logica literal that was written into the program.        *)
 Denoted(r) ==
   IF r.k = "unit" THEN [ok |-> TRUE, val |-> r.s]
   ELSE IF r.pos = "user" THEN [ok |-> TRUE, val |-> r.lit]
-  ELSE LET d == LDecode(r.lit) IN [ok |-> d.ok /\ d.form = r.form, val |-> d.val]
+  ELSE LET d == LDecode(r.lit) IN [ok |-> d.ok /\ d.form = LexForm(r.form), val |-> d.val]
 
 RECURSIVE SumSeq(_)
 SumSeq(s) == IF s = <<>> THEN 0 ELSE (Head(s) % 1000) + SumSeq(Tail(s))
 
 InShard(r) == SumSeq(Denoted(r).val) % Hdr.nshards = Hdr.shard
 
-OverAlphabet(s) == \A i \in 1..Len(s) : s[i] \in Alphabet
+OverAlphabet(s) == \A i \in 1..Len(s) : s[i] \in Alphabet \cup ExtraChars
 
 -----------------------------------------------------------------------------
 UnitBad(r) ==
